@@ -11,7 +11,7 @@
    any depth; `break` ends the innermost loop.  A group or location action is the same
    action on each member in name order; the operands of one statement share one delay. *)
 From Coq Require Import ZArith String List Bool PrimFloat.
-From Bardolph Require Import Base.PyFloat Gen.Codes Time.TimeSpec Time.TimePattern
+From Bardolph Require Import Base.PyFloat Gen.Codes Time.TimeSpec Time.TimeCore
   Lang.Value Lang.Units0 Lang.World Lang.Regs Lang.Devices Lang.Builtins Lang.Syntax.
 Open Scope string_scope.
 Open Scope list_scope.
